@@ -99,6 +99,10 @@ def step (d : DSt) (ws : List String) : DSt × String :=
       | _ => none
     let ms := specLog (t k) cs pubs
     (d, if ms.isEmpty then "-" else "+".intercalate (ms.map showMsg))
+  | ["!churn", _, _, share] =>
+    -- specification of the churn scenario: A [x1] sees p1; B [x2] sees p2 p3; the new C sees p4 p5,
+    -- or p3 p4 when it shares x2 with B and is ended together with it
+    (d, if share == "share=true" then "A=p1 B=p2,p3 C=p3,p4" else "A=p1 B=p2,p3 C=p4,p5")
   | ["recv", e, perr] =>
     let en : End := if e == "dead" then .tableDead else if e == "doerr" then .doErr else if e == "ctx" then .ctxDone else .chClosed
     (d, showErr (receiveResult en (if perr == "-" then none else some perr)))
